@@ -673,6 +673,19 @@ func classifyIndex(w *World, fn *ssa.Function, in ssa.Instruction, coll, idx ssa
 				if k == 0 && (!okN || n != 0) {
 					return kind, "G4", "element 0 of a SplitN result (n != 0) always exists"
 				}
+				// a separator that is not a constant: element 1 exists when the text is known to contain that very
+				// value and the value cannot be empty
+				if !okS && okN && k == 1 && n >= 2 && nonEmptyStringAt(c.Call.Args[1], b, 0) {
+					for _, f := range factsAt(b) {
+						if f.Op != token.ILLEGAL || !f.Truth {
+							continue
+						}
+						cc, ok := f.X.(*ssa.Call)
+						if ok && calleeName(cc) == "strings.Contains" && cc.Call.Args[0] == c.Call.Args[0] && cc.Call.Args[1] == c.Call.Args[1] {
+							return kind, "G4", "SplitN(s, sep, n)[1] where s is known to contain sep and sep cannot be empty"
+						}
+					}
+				}
 				if okN && okS && k < n && containsFact(w, b, c.Call.Args[0], sep, int(k)) {
 					return kind, "G4", fmt.Sprintf("SplitN(s, %q, %d)[%d] where s is known to contain the separator", sep, n, k)
 				}
@@ -835,6 +848,62 @@ func containsFact(w *World, b *ssa.BasicBlock, s ssa.Value, sep string, idx int)
 		if derivedByTrim(c.Call.Args[0], s) {
 			return true
 		}
+	}
+	return false
+}
+
+// nonEmptyStringAt: the string value cannot be empty at block b: a non-empty constant, a value compared unequal to ""
+// by a dominating test, or a merge of such values (each judged on the edge it arrives by).
+func nonEmptyStringAt(v ssa.Value, b *ssa.BasicBlock, depth int) bool {
+	if depth > 4 {
+		return false
+	}
+	if s, ok := constString(v); ok {
+		return s != ""
+	}
+	neq := func(facts []Fact) bool {
+		for _, f := range facts {
+			if f.Y == nil {
+				continue
+			}
+			if s, ok := constString(f.Y); ok && s == "" && f.Op == token.NEQ && f.X == v {
+				return true
+			}
+			if c, ok := lenOf(f.X); ok && c == v {
+				if k, ok := constInt(f.Y); ok && ((f.Op == token.GTR && k == 0) || (f.Op == token.NEQ && k == 0) || (f.Op == token.GEQ && k == 1)) {
+					return true
+				}
+			}
+		}
+		return false
+	}
+	if neq(factsAt(b)) {
+		return true
+	}
+	if phi, ok := v.(*ssa.Phi); ok {
+		for i, e := range phi.Edges {
+			pred := phi.Block().Preds[i]
+			facts := factsAt(pred)
+			if iff, ok := pred.Instrs[len(pred.Instrs)-1].(*ssa.If); ok && pred.Succs[0] != pred.Succs[1] {
+				facts = append(facts, condFacts(iff.Cond, pred.Succs[0] == phi.Block(), iff)...)
+			}
+			if s, ok := constString(e); ok && s != "" {
+				continue
+			}
+			good := false
+			for _, f := range facts {
+				if f.Y == nil {
+					continue
+				}
+				if s, ok := constString(f.Y); ok && s == "" && f.Op == token.NEQ && f.X == e {
+					good = true
+				}
+			}
+			if !good && !nonEmptyStringAt(e, pred, depth+1) {
+				return false
+			}
+		}
+		return true
 	}
 	return false
 }
